@@ -34,8 +34,8 @@ namespace R
 @[simp] theorem real_exp (x : ℝ) : R.exp x = Real.exp x := rfl
 @[simp] theorem real_asin (x : ℝ) : R.asin x = Real.arcsin x := rfl
 @[simp] theorem real_atan2 (y x : ℝ) : R.atan2 y x = Complex.arg ⟨x, y⟩ := rfl
-@[simp] theorem real_min (x y : ℝ) : R.min x y = min x y := rfl
-@[simp] theorem real_max (x y : ℝ) : R.max x y = max x y := rfl
+@[simp] theorem real_min (x y : ℝ) : R.min x y = Min.min x y := rfl
+@[simp] theorem real_max (x y : ℝ) : R.max x y = Max.max x y := rfl
 @[simp] theorem real_abs (x : ℝ) : R.abs x = |x| := rfl
 @[simp] theorem real_ofSci (m : Nat) (s : Bool) (e : Nat) :
     (R.ofSci m s e : ℝ) = (OfScientific.ofScientific m s e : ℝ) := rfl
